@@ -111,8 +111,12 @@ class PtySession:
 
     def line(self, text, timeout=15.0):
         """type a line + Enter, wait for the next prompt; returns (ok, output)"""
+        # a prompt left unread in the buffer, or one the line editor redraws while the typed text arrives in pieces
+        # (a loaded machine), must not be taken for the prompt that follows the command: drop what is unread and
+        # accept only a prompt that comes after the newline echoed for Enter
+        self.buf = b""
         self.send(text + "\r")
-        return self.wait_prompt(timeout)
+        return self.expect(rb"\n.*?" + re.escape(PROMPT.encode()), timeout)
 
     # ------------------------------------------------------------- state
     def alive(self):
